@@ -286,6 +286,21 @@ Theorem C07_linkage_complete_first_step_f32 : forall (p : profile) s d (m : list
 Proof. exact linkage_complete_first_step_f32. Qed.
 Print Assumptions C07_linkage_complete_first_step_f32.
 
+(* what the user calls, in exact arithmetic over option Q (None = +infinity), for the six methods
+   other than single (single: C07_single_first_step, every entry point): linkage runs nnchain for
+   complete / average / weighted / ward and generic for centroid / median *)
+Theorem C07_linkage_first_step_QI : forall (p : profile) (rt : Q -> Q) meth s d (mq : list Q) n s' d' m' (M0 : cmat qi) (a b : nat) (v : Q),
+  meth <> Single ->
+  linkage_with (QI rt) p meth s d (map Some mq) n = Ok (s', d', m') ->
+  prologue p (square_all (kops_of (QI rt) meth) (map Some mq)) n = Ok M0 ->
+  a < b -> b < m_obs M0 ->
+  UpdateSpec.wcell M0 a b = Some (Some v) ->
+  (forall x y w, x < y -> y < m_obs M0 -> (x, y) <> (a, b) -> UpdateSpec.wcell M0 x y = Some (Some w) -> (v < w)%Q) ->
+  exists t, nth_error (d_steps d') 0 = Some t /\ s_c1 t = a /\ s_c2 t = b /\ s_size t = 2
+    /\ s_dis t = k_rt (kops_of (QI rt) meth) (Some v).
+Proof. exact linkage_first_step_QI. Qed.
+Print Assumptions C07_linkage_first_step_QI.
+
 (* non-vacuity: a concrete rational matrix (d01 = 3, d02 = 1, d12 = 2) meets the hypotheses *)
 Example C07_first_step_hypotheses_satisfiable :
   let m := [3; 1; 2]%Q in
